@@ -31,7 +31,8 @@ def ul(*children, **kw):
 
 def programs(tier):
     out = []
-    kinds = ['list', 'tuple', 'range', 'generator', 'iterator', 'dictkeys', 'dict', 'str']
+    kinds = ['list', 'tuple', 'range', 'generator', 'iterator', 'dictkeys', 'dict', 'str', 'userlist', 'customseq',
+             'mappingkeys', 'deque']
     for k in kinds:
         out.append(('kind:' + k, ul({'tag': 'li', 'indent': 2, 'repeat': ['x', py('seq')],
                                      'children': [I('x'), '|'] + probes('x')}),
@@ -111,7 +112,7 @@ def plan(tier, seed):
                    'chameleon.zpt.program:MacroProgram.visit_text'],
         bounds=('position arithmetic (index, number, start, end, even, odd, parity, length): all 0 <= pos < length, no '
                 'bound; letter/Letter: all positions in %s; roman/Roman: one symbolic decimal digit at each place over %d '
-                'digit contexts (values up to 10999, includes the 3999/4000 boundary); rendering: %d templates (8 iterable '
+                'digit contexts (values up to 10999, includes the 3999/4000 boundary); rendering: %d templates (12 iterable '
                 'kinds incl. one-shot generator/iterator, None, tuple unpacking, nesting depth <= %d with distinct and '
                 'reused names, element after "\\n"+indent of 0/2/4/6, after a sibling) with sequence length 0..3 decided '
                 'by the solver. Outside: repeated element that does not start on its own line (statement silent), '
